@@ -88,7 +88,7 @@ fn main() {
                     None => {
                         // division by zero (or empty aggregate) must not be rewritten away by simplify
                         if vs.is_some() && hits_div_zero(e, &env) {
-                            rep.fail(json!({"kind":"undefined-rewritten-away","class": if has_zero_times_undefined(e, &env) { "zero-times-undefined" } else if has_absorbing_logic_next_to_undefined(e, &env) { "absorbing-logic-constant-next-to-undefined" } else { "unclassified" },"input": e.to_string(), "coq": cq::exp(e), "assignment": env, "simplified": s.to_string(), "simplified_value": vs}));
+                            rep.fail(json!({"kind":"undefined-rewritten-away","class": if has_zero_times_undefined(e, &env) { "zero-times-undefined" } else if has_absorbing_logic_next_to_undefined(e, &env) { "absorbing-logic-constant-next-to-undefined" } else if !typed_ok(e, &env) { "nonbinary-operand-of-and-or" } else { "unclassified" },"input": e.to_string(), "coq": cq::exp(e), "assignment": env, "simplified": s.to_string(), "simplified_value": vs}));
                         }
                         rep.count("points_undefined");
                     }
